@@ -10,6 +10,8 @@ Additional family E2E (harness/corr_E2E.py, DESIGN §11.2): whole files through 
 built and audited with this check (`EXTRA_PROPS`)."""
 from __future__ import annotations
 
+import os
+
 import random
 from concurrent.futures import ThreadPoolExecutor
 from fractions import Fraction
@@ -20,6 +22,15 @@ from vp_common import Atom, Ctx, line, run_driver
 
 PROP = 'C08'
 EXTRA_PROPS = ['Pipeline']          # Props/Pipeline.lean: built, audited and counted with C08's obligations
+GEN_DEPENDENT = True                # the pipeline model scores with the dispatch table regenerated from the source (Gen/Dispatch.lean)
+
+
+def translate(ctx):
+    """the end-to-end model uses C05's regenerated dispatch table: re-read it from the tree under test"""
+    import c05_translate
+    from vp_common import LEAN_DIR, REPO
+    problems, _ = c05_translate.translate_repo(REPO, os.path.join(LEAN_DIR, 'OutrankModel', 'Gen', 'Dispatch.lean'))
+    ctx.tie_broken.extend(problems)
 RULE = ('CSV files generated from one PRNG: 3-4 columns (label anywhere, a unique row-id column), number of selected valid rows '
         'k*B + {-1,0,1,1023,1024,1025,1026} for B in [1030,2600] (tail rule can fire) and B in {1,2,5,50} (many batches), '
         'subsampling in {1,2,3,7} with unselected filler lines (valid or malformed), malformed selected rows (too few / too many '
